@@ -777,7 +777,7 @@ func (ck *Check) nonNilWhenOK(f *ssa.Function, idx int) bool {
 			eph, _ := errV.(*ssa.Phi)
 			okEdges := true
 			for i, ev := range ph.Edges {
-				if _, isAlloc := ev.(*ssa.Alloc); isAlloc {
+				if ck.alwaysNonNil(ev, 0) {
 					continue
 				}
 				// a nil (or unknown) result on this edge is fine only if the error is non-nil on it
@@ -818,6 +818,9 @@ func (ck *Check) nonNilWhenOK(f *ssa.Function, idx int) bool {
 				}
 				res = false
 			}
+			continue
+		}
+		if ck.alwaysNonNil(v, 0) {
 			continue
 		}
 		vt := ctx.Term(v)
@@ -1045,6 +1048,36 @@ func (ck *Check) isTimerChan(v ssa.Value, depth int) bool {
 				if idx < 0 || idx >= len(ci.Common().Args) || !ck.isTimerChan(ci.Common().Args[idx], depth+1) {
 					return false
 				}
+			}
+		}
+		return n > 0
+	}
+	return false
+}
+
+// alwaysNonNil: v is a freshly made object, or the single result of a repo constructor all of
+// whose returns are.
+func (ck *Check) alwaysNonNil(v ssa.Value, depth int) bool {
+	if depth > 3 {
+		return false
+	}
+	switch x := v.(type) {
+	case *ssa.Alloc, *ssa.MakeMap, *ssa.MakeSlice, *ssa.MakeClosure, *ssa.FieldAddr:
+		return true
+	case *ssa.Call:
+		f := x.Common().StaticCallee()
+		if f == nil || !ck.P.inRepo(f) || f.Blocks == nil || f.Signature.Results().Len() != 1 {
+			return false
+		}
+		n := 0
+		for _, b := range f.Blocks {
+			r, ok := b.Instrs[len(b.Instrs)-1].(*ssa.Return)
+			if !ok {
+				continue
+			}
+			n++
+			if !ck.alwaysNonNil(r.Results[0], depth+1) {
+				return false
 			}
 		}
 		return n > 0
